@@ -4,6 +4,7 @@
 From Coq Require Import List NArith Bool.
 From V Require Proofs.ExprsTie3.  (* whole-word regimes, fill_symmetric, text widths: regenerated from the Rust source, equal the model's *)
 From V Require Proofs.ExprsTie.   (* the kernels' word-level expressions, regenerated from the Rust source, equal the model's *)
+From V Require Import Checkers.Check Proofs.CheckSound.   (* the extracted checkers and their soundness proofs, pinned at the end of this file *)
 From V Require Import Base.Res Model.Kernels Model.Api Spec.Bfun Proofs.Transforms Proofs.ApiTransforms.
 Import ListNotations.
 Open Scope N_scope.
@@ -98,3 +99,86 @@ Print Assumptions C03_api_cofactors.
 Print Assumptions C03_api_from_cofactors.
 Print Assumptions C03_api_from_cofactors_static.
 Print Assumptions C03_shannon.
+
+
+(* ---- soundness of the extracted checkers that decide this property's statement on the implementation's results *)
+Theorem C03_checker_table_iff : forall n t f,
+  chk_table n t f = true <-> wf n t /\ forall m, m < 2 ^ N.of_nat n -> val t m = f m.
+Proof. exact CheckSound.chk_table_iff. Qed.
+
+Theorem C03_checker_table_unique : forall n t t' f,
+  chk_table n t f = true -> chk_table n t' f = true -> t' = t.
+Proof. exact CheckSound.chk_table_unique. Qed.
+
+Theorem C03_checker_flip_model : forall l i r,
+  lwf l -> i < N.of_nat (nv l) -> D_flip l i = Ok r ->
+  nv r = nv l /\ chk_table (nv l) (tbl r) (spec_flip (tbl l) i) = true.
+Proof. exact CheckSound.chk_flip_model. Qed.
+
+Theorem C03_checker_swap_model : forall l i j r,
+  lwf l -> i < N.of_nat (nv l) -> j < N.of_nat (nv l) -> D_swap l i j = Ok r ->
+  nv r = nv l /\ chk_table (nv l) (tbl r) (spec_swap (tbl l) i j) = true.
+Proof. exact CheckSound.chk_swap_model. Qed.
+
+Theorem C03_checker_swap_adjacent_model : forall l i r,
+  N.of_nat (nv l) < 2 ^ 64 -> lwf l -> i + 1 < N.of_nat (nv l) ->
+  D_swap_adjacent l i = Ok r ->
+  nv r = nv l /\ chk_table (nv l) (tbl r) (spec_swap (tbl l) i (i + 1)) = true.
+Proof. exact CheckSound.chk_swap_adjacent_model. Qed.
+
+Theorem C03_checker_cofactors_model : forall l i c0 c1,
+  lwf l -> i < N.of_nat (nv l) -> D_cofactors l i = Ok (c0, c1) ->
+  nv c0 = nv l /\ nv c1 = nv l /\
+  chk_table (nv l) (tbl c0) (spec_cof0 (tbl l) i) = true /\ chk_table (nv l) (tbl c1) (spec_cof1 (tbl l) i) = true.
+Proof. exact CheckSound.chk_cofactors_model. Qed.
+
+Theorem C03_checker_from_cofactors_model : forall c0 c1 i r,
+  lwf c0 -> lwf c1 -> nv c0 = nv c1 -> i < N.of_nat (nv c0) ->
+  D_from_cofactors c0 c1 i = Ok r ->
+  nv r = nv c0 /\ chk_table (nv c0) (tbl r) (spec_from_cof (tbl c0) (tbl c1) i) = true.
+Proof. exact CheckSound.chk_from_cofactors_model. Qed.
+
+Theorem C03_checker_from_cofactors_static_model : forall c0 c1 i r,
+  lwf c0 -> lwf c1 -> nv c0 = nv c1 -> i < N.of_nat (nv c0) ->
+  S_from_cofactors c0 c1 i = Ok r ->
+  nv r = nv c0 /\ chk_table (nv c0) (tbl r) (spec_from_cof (tbl c0) (tbl c1) i) = true.
+Proof. exact CheckSound.chk_from_cofactors_static_model. Qed.
+
+Theorem C03_checker_flip_kernel : forall n t i t',
+  wf n t -> i < N.of_nat n -> flip_inplace n t i = Ok t' ->
+  chk_table n t' (spec_flip t i) = true.
+Proof. exact CheckSound.chk_flip_kernel. Qed.
+
+Theorem C03_checker_swap_kernel : forall n t i j t',
+  wf n t -> i < N.of_nat n -> j < N.of_nat n -> swap_inplace n t i j = Ok t' ->
+  chk_table n t' (spec_swap t i j) = true.
+Proof. exact CheckSound.chk_swap_kernel. Qed.
+
+Theorem C03_checker_cofactor0_kernel : forall n t i t',
+  wf n t -> i < N.of_nat n -> cofactor0_inplace n t i = Ok t' ->
+  chk_table n t' (spec_cof0 t i) = true.
+Proof. exact CheckSound.chk_cofactor0_kernel. Qed.
+
+Theorem C03_checker_cofactor1_kernel : forall n t i t',
+  wf n t -> i < N.of_nat n -> cofactor1_inplace n t i = Ok t' ->
+  chk_table n t' (spec_cof1 t i) = true.
+Proof. exact CheckSound.chk_cofactor1_kernel. Qed.
+
+Theorem C03_checker_from_cofactors_kernel : forall n t t0 t1 i t',
+  wf n t -> wf n t0 -> wf n t1 -> i < N.of_nat n ->
+  from_cofactors_inplace n t t0 t1 i = Ok t' -> chk_table n t' (spec_from_cof t0 t1 i) = true.
+Proof. exact CheckSound.chk_from_cofactors_kernel. Qed.
+
+Print Assumptions C03_checker_table_iff.
+Print Assumptions C03_checker_table_unique.
+Print Assumptions C03_checker_flip_model.
+Print Assumptions C03_checker_swap_model.
+Print Assumptions C03_checker_swap_adjacent_model.
+Print Assumptions C03_checker_cofactors_model.
+Print Assumptions C03_checker_from_cofactors_model.
+Print Assumptions C03_checker_from_cofactors_static_model.
+Print Assumptions C03_checker_flip_kernel.
+Print Assumptions C03_checker_swap_kernel.
+Print Assumptions C03_checker_cofactor0_kernel.
+Print Assumptions C03_checker_cofactor1_kernel.
+Print Assumptions C03_checker_from_cofactors_kernel.
